@@ -105,6 +105,7 @@ def task_average_twins(pr, repo):
     CCls = repo.cls(CC)
     names = ['1A', '1B']
     for kind in ('hetero: equal label, different residue number', 'equal atom label (same chain and number)',
+                 'mutant: the same defining atom carries another group type in the other conformation (ASN / ASP on CG)',
                  'own: one residue with two groups of one type (C-terminal ASP: side chain and C-, both COO)'):
         def thunk(ex, ctx, kind=kind):
             partner = C02.mkgroup(repo, 'partner', (0, 0, 0), label='LYS  99 A')
@@ -116,6 +117,14 @@ def task_average_twins(pr, repo):
                     if kind.startswith('hetero'):
                         g.attrs['label'] = 'ACT   C A'
                         g.attrs['atom'].attrs.update(type='hetatm', residue_label='C  %4d A' % (101 + gi), res_num=101 + gi)
+                    elif kind.startswith('mutant'):
+                        # conformation 1A holds ASN 33 (group 0 only), conformation 1B holds ASP 33 (group 1 only): same atom label
+                        g.attrs['atom'].attrs.update(residue_label='CG   33 A', res_num=33, icode=' ', name='CG')
+                        g.attrs['label'] = ('ASN  33 A', 'ASP  33 A')[gi]
+                        g.attrs['type'] = ('AMD', 'COO')[gi]
+                        g.attrs['residue_type'] = ('AMD', 'ASP')[gi]
+                        if (c == '1A') != (gi == 0):
+                            continue
                     elif kind.startswith('own'):
                         g.attrs['atom'].attrs.update(residue_label=('CG   60 A', 'OXT  60 A')[gi], res_num=60, icode=' ',
                                                      name=('CG', 'OXT')[gi])
@@ -133,6 +142,10 @@ def task_average_twins(pr, repo):
             avr = confs.get('AVR')
             ag = avr.attrs['groups'] if isinstance(avr, Obj) else []
             ctx.oblige('AVT[%s]: two distinct groups per conformation => two averaged groups are reported' % kind, len(ag) == 2)
+            if kind.startswith('mutant') and len(ag) == 2:
+                ctx.oblige('AVT[%s]: each of the two groups is reported with the values of the only conformation that has it' % kind,
+                           And(*[ag[gi].attrs['pka_value'] == allg[(gi, c)].attrs['pka_value']
+                                 for gi, c in ((0, '1A'), (1, '1B'))] + [ag[0].attrs['type'] == 'AMD' and ag[1].attrs['type'] == 'COO']))
             if kind.startswith(('hetero', 'own')) and len(ag) == 2:
                 conj = []
                 for gi in range(2):
@@ -193,8 +206,9 @@ def task_topup(pr, repo):
 
     def atom(name, res, num, chain='A'):
         return dict(name=name, res_name=res, res_num=num, chain_id=chain, residue_label='%-3s%4d%2s' % (name, num, chain))
+    # 'HG': a hydrogen supplied with the input (keep-protons) is an atom like any other for the completion
     universe = [atom('N', 'GLY', 1), atom('OG', 'SER', 2), atom('CB', 'SER', 2), atom('SG', 'CYS', 2), atom('CB', 'CYS', 2),
-                atom('CA', 'GLY', 3), atom('OG', 'SER', 2, 'B')]
+                atom('CA', 'GLY', 3), atom('OG', 'SER', 2, 'B'), atom('HG', 'SER', 2)]
     selfs = [[0], [0, 1], [0, 3], [0, 5], []]
     n_cases = 0
     for s in selfs:
